@@ -19,7 +19,7 @@ RULE = (
     "arguments; items given as list, tuple and generator; n_workers 5..9 with schedules that load single workers (first/last/odd: the carried "
     "sketch of pairwise merging) plus Hypothesis-drawn (items, n_workers 1..9, schedule, combination) cases. Items are dicts describing lists of keys, or plain values incl. falsy ones (0, '', b'', [], ()), numpy arrays and objects that compare equal to everything (possibly "
     "empty, sharing keys, NUL/long keys), updated by list, dict-with-multiplicities or ngram calls; callbacks return generated record counts (also "
-    "through a **kwargs-dependent callback). Oracle per run: the callback is invoked exactly once per item (judged by the callback's own log, so an implementation may batch items); returned sketches identified by class (an undocumented tuple order is only counted); HyperLogLog registers == sequential sketch; n_added of cms/hh == total multiplicity; n_records == sum of callback "
+    "through callbacks whose result depends on a keyword argument passed through parallel_add, declared explicitly or taken through a **opts catch-all). Oracle per run: the callback is invoked exactly once per item (judged by the callback's own log, so an implementation may batch items); returned sketches identified by class (an undocumented tuple order is only counted); HyperLogLog registers == sequential sketch; n_added of cms/hh == total multiplicity; n_records == sum of callback "
     "returns; linear cms within the C01 bounds, log cms above the C06 lower bound, hh within C03/C04 bounds w.r.t. the whole stream. A quarter of the drawn cases run after an earlier parallel_add call of the same process (same arguments, other keys) whose result is still held: the later result must not contain its data and the earlier result must not change. Interleaved runs: the same code under a cooperative-thread context (bounded blocking queue, concurrent filler, seeded scheduler with 5 policies) for Hypothesis-drawn cases with up to 40 items and 6 workers. Real spawned "
     "runs (quick 1, thorough 4; a side file records (pid, item); the callback starts a child process of its own for every other item) validate the context. Non-trivial: >= 2 workers receive items and n_workers >= 3 "
     "or odd. Distinct = distinct (items, n_workers, schedule, combination, items_as)."
@@ -84,7 +84,7 @@ def _enum_task(arg):
         if si % nshards != shard:
             continue
         combo = cbs[(combo_i + si) % len(cbs)] if combo_i < 0 else cbs[combo_i]
-        case = {"items": items, "n_workers": k, "schedule": {str(w): v for w, v in sched.items()}, "combo": combo, "items_as": items_as, "cb": "kw" if si % 5 == 0 else "plain"}
+        case = {"items": items, "n_workers": k, "schedule": {str(w): v for w, v in sched.items()}, "combo": combo, "items_as": items_as, "cb": "kw" if si % 5 == 0 else ("opts" if si % 5 == 3 else "plain")}
         try:
             obs = run_case(case)
         except Violation as v:
@@ -149,7 +149,7 @@ def _hyp_shard(arg):
         for i in order:
             sched.setdefault(str(assign[i]), []).append(i)
         return {"items": mk_items(spec), "n_workers": k, "schedule": sched, "combo": draw(st.sampled_from(cbs)), "items_as": draw(st.sampled_from(["list", "list", "tuple", "generator"])),
-                "cb": draw(st.sampled_from(["plain", "kw"])), "prior": draw(st.sampled_from([False, False, False, True]))}
+                "cb": draw(st.sampled_from(["plain", "kw", "opts"])), "prior": draw(st.sampled_from([False, False, False, True]))}
 
     @given(case=cases())
     def test(case):
